@@ -44,7 +44,7 @@ sed -i "s#const Root = \"/verif\"#const Root = \"$VC\"#" $VC/vlib/vlib.go
 CAUGHT=""
 for P in $PROPS; do
   echo "--- ./run $P --tier quick against the changed tree"
-  FULL=$(cd $VC && VERIF_LABD=$VC/.build/labd timeout 2400 ./run $P --tier quick 2>&1 | grep "VIOLATION\|detail\|INFRA\|quick:" | sort | uniq | cut -c1-260)
+  FULL=$(cd $VC && VERIF_LABD=$VC/.build/labd timeout 5400 ./run $P --tier ${SEEDCHECK_TIER:-quick} 2>&1 | grep "VIOLATION\|detail\|INFRA\|quick:\|thorough:" | sort | uniq | cut -c1-260)
   echo "$FULL" | head -7
   echo "$FULL" | grep -q "^VIOLATION" && CAUGHT="$CAUGHT $P"
 done
